@@ -123,6 +123,30 @@ let run_line line =
                 Printf.printf "%s\tOUT %s\tDISK %s\n" res (pstr st.m_world.w_out) (String.concat ";" (List.map (fun (nm, bs) -> pstr nm ^ "=" ^ show_bytes bs) st.m_world.w_disk))
             | _ -> print_endline "SKIP")
        | _ -> print_endline "BADLINE")
+    end else if inp = "MM" then begin
+      (* MM <disk | -> TAB <stdin | -> TAB <format_io 0/1> TAB <code points of the program text> : main.main on EVERY expression of the text
+         (run_main_many): the printed values joined by " | " (or the first failure), all output, input left, the events of all evaluations *)
+      (match String.split_on_char '\t' prog with
+       | [dk; sin; fio; text] ->
+           let bytes_of s = if s = "e" then [] else List.map (fun c -> n_of_int (int_of_string c)) (String.split_on_char '.' s) in
+           let disk = if dk = "-" then [] else List.map (fun ent -> match String.split_on_char '=' ent with [nm; bs] -> (cps nm, bytes_of bs) | _ -> failwith "bad disk entry") (String.split_on_char ';' dk) in
+           let lines = if sin = "-" then [] else List.map cps (String.split_on_char '|' sin) in
+           (match parse_text (cps text) with
+            | Inr (_, sp) -> Printf.printf "E 5,-44 @%s\tOUT \tREST %d\tEV \n" (pspan sp) (List.length lines)
+            | Inl asts ->
+                let rs = run_main_many fuel asts lines disk (fio = "1") in
+                let strs = List.filter_map (fun (o, _) -> match o with ODone (VStr s) -> Some (pstr s) | _ -> None) rs in
+                let last = List.fold_left (fun _ x -> Some x) None rs in
+                let res = match last with
+                  | None -> "V "
+                  | Some (ODone _, _) -> "V " ^ String.concat ",32,124,32," strs
+                  | Some (OErr e, _) when (match e.e_vals with [VInt _; VInt n] -> BZ.equal (bz_of_z n) (BZ.of_int 999) | _ -> false) -> "UNMODELLED"
+                  | Some (OErr e, _) -> "E " ^ String.concat "," (List.map (function VInt n -> BZ.to_string (bz_of_z n) | _ -> "?") e.e_vals) ^ " @" ^ String.concat ";" (List.map pspan e.e_spans)
+                  | Some (OLimit, _) -> "LIMIT" | Some (OFuel, _) -> "FUEL" | Some (OStuck _, _) -> "STUCK" in
+                let evs = List.concat_map (fun (_, st) -> List.rev_map (function EB (d, _, sp) -> Printf.sprintf "B%d@%s" (int_of_nat d) (pspan sp) | EA (d, _, sp, k) -> Printf.sprintf "A%d@%s#%d" (int_of_nat d) (pspan sp) (int_of_n k)) st.m_dbg.events) rs in
+                let (out, rest) = match last with Some (_, st) -> (pstr st.m_world.w_out, List.length st.m_world.w_in) | None -> ("", List.length lines) in
+                Printf.printf "%s\tOUT %s\tREST %d\tEV %s\n" res out rest (String.concat " " evs))
+       | _ -> print_endline "BADLINE")
     end else if inp = "IM" then begin
       (* IM <disk: name=bytes;... or -> TAB <stdin lines | -> TAB <code points of the program text> : run_main_fs (programs that import module files),
          reported like a plain run: result or error with its spans, output, input left, observer events *)
